@@ -18,6 +18,8 @@ import (
 	"strings"
 
 	"github.com/csgura/fp"
+	"github.com/csgura/fp/option"
+	"github.com/csgura/fp/try"
 	"verif/mc"
 )
 
@@ -41,6 +43,84 @@ var E = func() []error {
 // EK2 is a second callback failure (the "fails with a different error" letter).
 var EK2 error = &sentinel{"ek2"}
 
+// The library's own errors. Operands and callbacks fail not only with the private sentinels
+// E[i] but also with the error values the packages under test produce themselves: a combinator
+// that treats one of them specially (compares with ==, errors.Is, code or text) would turn a
+// failing operand into something else, and the property demands the operand's own error value,
+// whatever it is.
+var (
+	// LookalikeOptionEmpty is a distinct value with the code and text of fp.ErrOptionEmpty.
+	LookalikeOptionEmpty = fp.Error(404, "Option.empty")
+	// WrappedOptionEmpty wraps the sentinel (errors.Is finds it, == does not).
+	WrappedOptionEmpty = fmt.Errorf("lookup failed: %w", fp.ErrOptionEmpty)
+)
+
+// LibErr is one way a position can fail with a library error.
+type LibErr struct {
+	Name string
+	Err  error
+	// ViaFromOption: the failing Try is built by try.FromOption(option.None()) (the way
+	// FromOption/FromPtr/PtrN/ApOption produce the sentinel) instead of try.Failure(Err).
+	ViaFromOption bool
+}
+
+// LibErrs is the alphabet of library errors.
+var LibErrs = []LibErr{
+	{"ErrOptionEmpty", fp.ErrOptionEmpty, false},
+	{"FromOption(None)", fp.ErrOptionEmpty, true},
+	{"ErrTryNotFailed", fp.ErrTryNotFailed, false},
+	{"ErrFutureNotFailed", fp.ErrFutureNotFailed, false},
+	{"lookalike(ErrOptionEmpty)", LookalikeOptionEmpty, false},
+	{"wrapped(ErrOptionEmpty)", WrappedOptionEmpty, false},
+}
+
+// errFamily picks (once per execution, at the first error-carrying position built) how the
+// positions of this execution fail: 0 = the private sentinels E[i]; k >= 1 = position i (0 =
+// the callbacks' own failure) fails with LibErrs[(i+k-1) mod len]. Over all k every position
+// fails with every library error, in particular the first failing one with fp.ErrOptionEmpty,
+// while neighbouring positions carry different errors.
+func (e *Env) errFamily() int {
+	if e.family < 0 {
+		e.family = e.X.Choose(len(LibErrs)+1, "error-family")
+		if e.family > 0 {
+			e.letters = append(e.letters, "errors=library+"+strconv.Itoa(e.family-1))
+		}
+	}
+	return e.family
+}
+
+func (e *Env) libErr(i int) (LibErr, bool) {
+	k := e.errFamily()
+	if k == 0 {
+		return LibErr{}, false
+	}
+	return LibErrs[(i+k-1)%len(LibErrs)], true
+}
+
+// Err is the error position i fails with in this execution.
+func (e *Env) Err(i int) error {
+	if le, ok := e.libErr(i); ok {
+		return le.Err
+	}
+	return E[i]
+}
+
+// Err2 is the callbacks' second failure (the "fails with a different error" letter).
+func (e *Env) Err2() error {
+	if le, ok := e.libErr(len(LibErrs) / 2); ok {
+		return le.Err
+	}
+	return EK2
+}
+
+// FailedTry is the failing Try of position i, built the way the execution's error family says.
+func FailedTry[T any](e *Env, i int) fp.Try[T] {
+	if le, ok := e.libErr(i); ok && le.ViaFromOption {
+		return try.FromOption(option.None[T]())
+	}
+	return fp.Failure[T](e.Err(i))
+}
+
 // ErrName gives the canonical name of an error *by identity*: a wrapped or re-created error
 // does not get the sentinel's name.
 func ErrName(err error) string {
@@ -63,6 +143,15 @@ func ErrName(err error) string {
 	}
 	if err == fp.ErrTryNotFailed {
 		return "ErrTryNotFailed"
+	}
+	if err == fp.ErrFutureNotFailed {
+		return "ErrFutureNotFailed"
+	}
+	if err == LookalikeOptionEmpty {
+		return "lookalike(ErrOptionEmpty)"
+	}
+	if err == WrappedOptionEmpty {
+		return "wrapped(ErrOptionEmpty)"
 	}
 	return fmt.Sprintf("?%T(%v)", err, firstLine(err.Error()))
 }
@@ -107,6 +196,7 @@ type Env struct {
 	posName []string
 	posIdx  []int
 	letters []string
+	family  int      // error family of this execution (-1 = not chosen yet)
 	seqT    []string // elements of the SeqT operand of this execution
 
 	// viewBase is a small array allocated anew for every evaluated side (eval resets it); the
@@ -129,7 +219,7 @@ var cur *Env
 func Cur() *Env { return cur }
 
 func NewEnv(x *mc.X, prop, name string, failMonad bool) *Env {
-	e := &Env{X: x, Prop: prop, Name: name, FailMonad: failMonad}
+	e := &Env{X: x, Prop: prop, Name: name, FailMonad: failMonad, family: -1}
 	e.log = &e.implLog
 	cur = e
 	return e
